@@ -448,10 +448,21 @@ func expandCall(p *packages.Package, f *ast.File, src []byte, st ast.Stmt, form 
 			return "", false
 		}
 		name := "recv" + suffix
+		var robj types.Object
 		if len(fd.Recv.List[0].Names) == 1 && fd.Recv.List[0].Names[0].Name != "_" {
-			ren[p.TypesInfo.Defs[fd.Recv.List[0].Names[0]]] = name
+			robj = p.TypesInfo.Defs[fd.Recv.List[0].Names[0]]
 		}
-		pre = append(pre, fmt.Sprintf("var %s %s = %s; _ = %s", name, text(fd.Recv.List[0].Type), text(sel.X), name))
+		if id, isId := sel.X.(*ast.Ident); isId && plainLocal(p.TypesInfo, id) && !assignedIn(p.TypesInfo, fd.Body, robj) {
+			// the receiver expression is a plain local that the helper never assigns: use it directly
+			if robj != nil {
+				ren[robj] = id.Name
+			}
+		} else {
+			if robj != nil {
+				ren[robj] = name
+			}
+			pre = append(pre, fmt.Sprintf("var %s %s = %s; _ = %s", name, text(fd.Recv.List[0].Type), text(sel.X), name))
+		}
 	}
 	// parameters
 	ai := 0
@@ -465,10 +476,20 @@ func expandCall(p *packages.Package, f *ast.File, src []byte, st ast.Stmt, form 
 				return "", false
 			}
 			name := fmt.Sprintf("p%d%s", ai, suffix)
+			var pobj types.Object
 			if nm != nil && nm.Name != "_" {
-				ren[p.TypesInfo.Defs[nm]] = name
+				pobj = p.TypesInfo.Defs[nm]
 			}
-			pre = append(pre, fmt.Sprintf("var %s %s = %s; _ = %s", name, text(fld.Type), text(call.Args[ai]), name))
+			if id, isId := call.Args[ai].(*ast.Ident); isId && pobj != nil && plainLocal(p.TypesInfo, id) && !assignedIn(p.TypesInfo, fd.Body, pobj) &&
+				types.Identical(p.TypesInfo.TypeOf(id), pobj.Type()) && !shadowedIn(p.TypesInfo, fd.Body, id.Name) {
+				// an argument that is a plain local of the caller, bound to a parameter the helper never assigns: substituted
+				ren[pobj] = id.Name
+			} else {
+				if pobj != nil {
+					ren[pobj] = name
+				}
+				pre = append(pre, fmt.Sprintf("var %s %s = %s; _ = %s", name, text(fld.Type), text(call.Args[ai]), name))
+			}
 			ai++
 		}
 	}
@@ -605,4 +626,58 @@ func expandCall(p *packages.Package, f *ast.File, src []byte, st ast.Stmt, form 
 		return "", false
 	}
 	return b.String(), true
+}
+
+// plainLocal: id denotes a local variable or parameter (not a package-level variable, constant or field).
+func plainLocal(info *types.Info, id *ast.Ident) bool {
+	v, ok := info.Uses[id].(*types.Var)
+	return ok && !v.IsField() && v.Parent() != nil && v.Pkg() != nil && v.Parent() != v.Pkg().Scope()
+}
+
+// assignedIn: obj is assigned, incremented, or has its address taken somewhere in body.
+func assignedIn(info *types.Info, body *ast.BlockStmt, obj types.Object) bool {
+	if obj == nil {
+		return false
+	}
+	is := func(e ast.Expr) bool {
+		id, ok := e.(*ast.Ident)
+		return ok && (info.Uses[id] == obj || info.Defs[id] == obj)
+	}
+	found := false
+	ast.Inspect(body, func(n ast.Node) bool {
+		switch x := n.(type) {
+		case *ast.AssignStmt:
+			for _, l := range x.Lhs {
+				if is(l) {
+					found = true
+				}
+			}
+		case *ast.IncDecStmt:
+			if is(x.X) {
+				found = true
+			}
+		case *ast.UnaryExpr:
+			if x.Op == token.AND && is(x.X) {
+				found = true
+			}
+		case *ast.RangeStmt:
+			if (x.Key != nil && is(x.Key)) || (x.Value != nil && is(x.Value)) {
+				found = true
+			}
+		}
+		return true
+	})
+	return found
+}
+
+// shadowedIn: the body declares something called name (a substituted caller identifier would be captured).
+func shadowedIn(info *types.Info, body *ast.BlockStmt, name string) bool {
+	found := false
+	ast.Inspect(body, func(n ast.Node) bool {
+		if id, ok := n.(*ast.Ident); ok && id.Name == name && info.Defs[id] != nil {
+			found = true
+		}
+		return true
+	})
+	return found
 }
